@@ -7,6 +7,14 @@ hooks = subprocess.run(["git", "-C", "/repo", "log", "--format=%h %s"], capture_
 hook_commits = [l.split()[0] for l in hooks if "verif hooks" in l]
 
 CLAIMS = {
+ "C11": dict(
+   text="Coq theorems (Proofs/TreeLockProofs.v) over an executable step-by-step model of the tree-bin read-write lock (lock_root/contended_lock/unlock_root, TreeBin::find's read-lock attempt; sticky park tokens), for any number of readers, writer rounds and ANY schedule: mutual exclusion of tree restructuring and tree readers, no lost wake-up (a parked writer without a token always has a reader on its way to unpark it; the window between the WAITER CAS and the waiter swap is covered), deadlock freedom (some unfinished thread is always enabled), the blind-spin branch is unreachable, and termination: an explicit measure strictly decreased by every step of an enabled thread, hence a bound on all runs. The model's bit tests and CAS operands are the expressions regenerated from node.rs (obligation C11_model_uses_code_tests). The implementation side: scheduled runs of the real crate (hooks at every shared operation, lock acquisition, park/unpark, spin) report deadlock (all unfinished threads blocked) or step-limit (livelock) verdicts.",
+   note="sequentially consistent model (candidate K1 - Acquire re-read after the SeqCst waiter swap - is outside it); bin-mutex ordering (at most one bin lock held) and the init_table spin are covered by the scheduler verdicts only, not by a theorem yet; liveness is stated for finite programs",
+   tech="Coq proof (inductive invariant + termination measure over an executable lock model) + scheduler-verdict search on the implementation", ref="DESIGN.md 5/C11, appendix E"),
+ "C18": dict(
+   text="Coq theorems over event sequences regenerated from map.rs (for compute_if_present, retain, retain_force: lock-guard bindings, callback invocations, writes, releases in source order): inside a critical section the callback precedes every write, lock guards are RAII locals never forgotten, retain's predicate runs outside any lock; plus model lemmas (the callback is shown the current value with nothing modified; an interrupted retain has processed exactly a prefix). Fault injection on the implementation: a panic in the callback / at the i-th predicate call / in iterator-consuming code, then reference comparison, inspector lock probe, a write to every bin from a second thread under a watchdog, and further operations.",
+   note="the translator's classification of statements as writes/locks is syntactic (method names); unwinding semantics of RAII guards is Rust's",
+   tech="Coq proof over translator-regenerated critical-section event table + fault-injection differential", ref="DESIGN.md 5/C18"),
  "C19": dict(
    text="Coq theorems at the level of the abstract map: deserialisation (insert entries one by one) is total on every entry list and a repeated key keeps the last value; serialise-then-deserialise returns the same key->value map for every duplicate-free listing; for every permutation (interleaving) of the supplied items, parallel extend/collect yields old keys + supplied keys with each supplied key mapped to one of its supplied values; and, over the API table regenerated from serde_impls.rs, the visitors contain no panicking macro. The serde format layer and rayon scheduling are glue outside the model and are covered by direct differential runs against std collections (round trips, generated documents with repeats/malformations under catch_unwind, thread pools 1/2/4/8).",
    note="the link from 'some interleaving of inserts' to the real concurrent execution is C01 (linearizability); serde_json and rayon themselves are trusted",
